@@ -1,17 +1,22 @@
 /* C14: basename / dirname and the recomposition lemma. */
 #include "contracts/C14_path.h"
-int verif_exc; size_t g_vk, g_ls, g_pk;
+int verif_exc; size_t g_vk, g_ls, g_pk, g_plen;
+#ifdef VERIF_SMALL
+#define SMALL __CPROVER_assume(in_plen <= 64)
+#else
+#define SMALL
+#endif
 #include "x_path.c"
 
-void h_basename(void) { size_t in_vk, in_ls, in_pk; g_vk = in_vk; g_ls = in_ls; g_pk = in_pk; verif_exc = 0; vstr* r; const vstr* p; phosg_basename(r, p); VERIF_REACH(); }
-void h_dirname(void) { size_t in_vk, in_ls, in_pk; g_vk = in_vk; g_ls = in_ls; g_pk = in_pk; verif_exc = 0; vstr* r; const vstr* p; phosg_dirname(r, p); VERIF_REACH(); }
+void h_basename(void) { size_t in_vk, in_ls, in_pk, in_plen; SMALL; g_vk = in_vk; g_ls = in_ls; g_pk = in_pk; g_plen = in_plen; verif_exc = 0; vstr* r; const vstr* p; phosg_basename(r, p); VERIF_REACH(); }
+void h_dirname(void) { size_t in_vk, in_ls, in_pk, in_plen; SMALL; g_vk = in_vk; g_ls = in_ls; g_pk = in_pk; g_plen = in_plen; verif_exc = 0; vstr* r; const vstr* p; phosg_dirname(r, p); VERIF_REACH(); }
 
 /* dirname(p) + "/" + basename(p) == p for every path that contains a '/': lengths add up and byte g_vk of the
  * concatenation is byte g_vk of p (g_vk arbitrary) */
 #include <stdlib.h>
 void l_recompose(void)
 {
-  size_t in_vk, in_ls, in_pk, in_len; g_ls = in_ls; g_pk = in_pk; verif_exc = 0;
+  size_t in_vk, in_ls, in_pk, in_len; g_ls = in_ls; g_pk = in_pk; g_plen = in_len; verif_exc = 0;
   vstr p, d, b;
   __CPROVER_assume(in_len <= 0x100000);
   p.size = in_len; p.cap = in_len; p.data = malloc(in_len); __CPROVER_assume(p.data != 0);
